@@ -752,7 +752,7 @@ func c07ProbeDevs(tier string) (direct, union int) {
 func init() {
 	Register(&Prop{
 		ID:    "C07",
-		Rule:  "explicit-state BFS over pool states: a state is the canonical content of zog's 7 object pools (all fields of every free object, hidden slice capacity, double-release multiplicity; content-equal multiplicity capped) reached by a history of events (20 calls × {no collect, issues handed back through Collect* / Sanitize*AndCollect}, with the pool answers they received) replayed on cleared pools. Phase B: every probe (13) in every BFS state under LIFO answers, plus bounded deviations in states of depth ≤1 (thorough: all). Phase C: every probe on pre-filled pools holding one witness of every distinct free-object class seen anywhere in the BFS, each Get answered by any of them (bounded deviations). The probe's full canonical observation (every issue field, aliasing, destination, ctx values) must equal the probe on cleared pools. one execution = one (pool content, probe, pool-answer vector); non-trivial = non-empty pool content; distinct = distinct (probe, observation, answer vector)",
+		Rule:  "explicit-state BFS over pool states: a state is the canonical content of zog's 7 object pools (all fields of every free object, hidden slice capacity, double-release multiplicity; content-equal multiplicity capped) reached by a history of events (20 calls × {no collect, issues handed back through Collect* / Sanitize*AndCollect}, with the pool answers they received) replayed on cleared pools. Phase B: every probe (13) in every BFS state under LIFO answers, plus bounded deviations in states of depth ≤1 (thorough: all). Phase C: every probe on pre-filled pools holding one witness of every distinct free-object class seen anywhere in the BFS, each Get answered by any of them (bounded deviations). The probe's full canonical observation (every issue field, aliasing, destination, ctx values) must equal the probe on cleared pools. one execution = one (pool content, probe, pool-answer vector); non-trivial = non-empty pool content; distinct = distinct (probe, observation, answer vector). plus " + callsRule,
 		Floor: 20,
 		Bound: func(tier string) string {
 			d, ev, _ := c07Params(tier)
@@ -766,12 +766,15 @@ func init() {
 		},
 		Items: func(tier string) []Item {
 			baseline := c07Baselines()
+			c07GetSearch(tier) // before anything else, so that its time budget does not depend on which items this worker gets
 			db, du := c07ProbeDevs(tier)
 			var items []Item
 			for p := range c07Probes() {
 				items = append(items, Item{Name: fmt.Sprintf("direct/probe%d", p), MaxDevs: db, Run: c07DirectScenario(tier, p, baseline)})
 				items = append(items, Item{Name: fmt.Sprintf("union/probe%d", p), MaxDevs: du, Run: c07UnionScenario(tier, p, baseline)})
 			}
+			// state kept outside the pools, results still held by the caller, overlapping executions
+			items = append(items, callsItems(tier, "C07", "clean-despite-violation", "depends-on-history", "nested-call-differs", "earlier-result-changed", "panic")...)
 			return items
 		},
 		Extra: func(tier string) map[string]any {
